@@ -43,6 +43,18 @@ CHECKS = {
                  "bad-verb markers. The value space is a boundary table, not all int64/float64."),
         "technique": "TLC-enumerated directive grammar with consumption traces, replayed into Format/format/sprintf and compared with fmt.Sprintf",
     },
+    "C18": {
+        "text": ("JsonGrammar.tla is the RFC 8259 grammar as a TLA+ recogniser with the denoted value (int/float typing by spelling, duplicate keys, "
+                 "white space), the string-body decoding rules (escapes, surrogate pairs, U+FFFD) and the encodable value shapes. TLC enumerates every "
+                 "symbol sequence up to the bound, every single-symbol mutation of valid documents, every number spelling, every string-token "
+                 "sequence and every value shape with its verdict; each is rendered to bytes and decided three ways: specification, json.Decode/"
+                 "Encode (and the json module in a script), encoding/json. Encodings must be valid, read back as the same data by encoding/json "
+                 "and decode to an Equal value; seeded random values and byte mutations extend the enumeration."),
+        "design_ref": "DESIGN.md 8/C18, 15",
+        "note": ("Trusted: encoding/json (named by the property) and TLC. Numbers outside int64/float64 range, non-UTF-8 strings, NaN/Inf and "
+                 "nesting beyond encoding/json's limit are outside the claim."),
+        "technique": "TLA+ JSON grammar/recogniser enumerated by TLC, three-way agreement spec / real codec / encoding/json per rendered case",
+    },
     "C01": {
         "text": ("TengoSem.tla/TengoValues.tla are an executable TLA+ reference semantics of the documented language (names, lexical "
                  "environments, cells, heap with slice aliasing, operator/builtin tables). TLC evaluates every generated program, exploring "
